@@ -26,7 +26,7 @@ from mc.ref import refine as R
 
 ID = "C06"
 LEVEL = "exploration"
-BUDGET = {"quick": 300, "thorough": 900}
+BUDGET = {"quick": 300, "thorough": 3600}
 CHUNK = 4
 RULE = (
     "cases = (i) all triples over the 8-symbol alphabet per (method, measure, call form, c0); (ii) packed datasets "
